@@ -171,7 +171,17 @@ pub fn shrink_cli_case(c: &CliCase) -> Vec<CliCase> {
         push(&|n| n.env.policy = "nopreempt".into());
     }
     if c.format == Format::Gambit {
-        push(&|n| n.format = Format::Json);
+        // (the route must keep describing the content: a JSON text under a Gambit flag or
+        // extension would be a different, invalid input)
+        push(&|n| {
+            n.format = Format::Json;
+            if n.route.ext == "efg" {
+                n.route.ext = "json".into();
+            }
+            if n.route.flag.as_deref() == Some("gambit") {
+                n.route.flag = Some("json".into());
+            }
+        });
     }
     for g in shrink_tree(&c.game) {
         let mut n = c.clone();
@@ -380,8 +390,8 @@ impl Prop for CliFaithful {
             m.add("probe_gambit_interior_outcome_by_number_only_files", (by_number > 0) as u64);
         }
         if out.status != Some(0) {
-            let first = out.stderr.lines().find(|l| l.contains("panicked") || l.contains("error")).unwrap_or(out.stderr.lines().next().unwrap_or("")).to_string();
-            let line2 = out.stderr.lines().skip_while(|l| !l.contains("panicked")).nth(1).unwrap_or("").to_string();
+            let first = out.stderr.lines().find(|l| l.contains("panicked at")).or_else(|| out.stderr.lines().find(|l| l.contains("panicked") || l.contains("error"))).unwrap_or(out.stderr.lines().next().unwrap_or("")).to_string();
+            let line2 = out.stderr.lines().skip_while(|l| !l.contains("panicked at")).nth(1).unwrap_or("").to_string();
             return finish(m, h, viol("cli-nonzero-exit", "", format!("exit status {:?} on a valid {} file: {first} {line2}", out.status, case.format.name())), traces);
         }
         let bytes = match result_bytes(&case.route, &out) {
